@@ -120,6 +120,10 @@ package chainindex
 //@ func (*ChainIndex).cleanupOnStartup props C19
 //@   modifies dbmap(c.db)[]
 //@   requires wfidx(dbmap(c.db)) && wfkeys(dbmap(c.db)) && consistent(dbmap(c.db))
+// the cleanup bound is exactly lastAccepted - window: every height strictly below it is a candidate,
+// the loop stops at the first height at or above it (that the iterator reaches all of them in
+// order is the database's iteration contract, not modelled)
+//@   loop 1 invariant thresholdHeight + c.config.AcceptedBlockWindow == be64(old(dbmap(c.db))[lastKey()], 0)
 //@   loop 1 invariant forall q string :: !bput(batch, q)
 //@   loop 1 invariant forall q string :: bdel(batch, q) && len(q) >= 1 && q[0] != 1 ==> len(q) == 9 && (q[0] == 0 || q[0] == 2) && 0 < be64(q, 1) && be64(q, 1) < thresholdHeight
 //@   loop 1 invariant forall q string :: bdel(batch, q) && len(q) >= 1 && q[0] == 1 ==> has(dbmap(c.db), q) && len(dbmap(c.db)[q]) == 8 && 0 < be64(dbmap(c.db)[q], 0) && be64(dbmap(c.db)[q], 0) < thresholdHeight
